@@ -191,7 +191,7 @@ def run(ctx):
             nontrivial.add(data)
         if len(samples) < 2 and effective is not None and len(effective) >= 2:
             samples.append(dict(graph=str(effective)[:300], scenario=scenario))
-        if len(violations) >= 5 or len(disagreements) >= 20:
+        if len(violations) >= 5 or len(disagreements) >= ctx.dis_limit:
             break
         if ctx.tier == "quick" and ctx.elapsed() > 45:
             break
